@@ -122,7 +122,9 @@ def rust_lines(text):
 def run_C15(rep, tier, rng):
     n = 400 if tier == "quick" else 40000
     frags = ["// @sha256 ", "// @sha256", "//", "// x", "abc", "", " // @sha256 q", "// @sha256 // @sha256 abc", "// @SHA256 x", "/ /", "//@sha256 x",
-             "// @sha256 0123abcd", "#![allow(x)]", "// é€😀", "// @sha256 é", "\r", "// @sha256 a\r", "// @sha256  two  spaces "]
+             "// @sha256 0123abcd", "#![allow(x)]", "// é€😀", "// @sha256 é", "\r", "// @sha256 a\r", "// @sha256  two  spaces ",
+             # the separator behind the tag is one space, nothing else
+             "// @sha256\tx", "// @sha256\u00a0x", "// @sha256\x0cx", "// @sha256\u2003x", "// @sha256\rx", "// @sha256x", "//  @sha256 x", "//\t@sha256 x", "// @sha256", "// @sha256\u3000 y"]
     seps = ["\n", "\r\n", "\n\n", "\r", ""]
     texts = list(corpus("C15"))
     for _ in range(n):
@@ -1335,10 +1337,26 @@ def accepted_pool(rng, n, names="plain", usize=False, attrs=False, derive=None, 
         else:
             items = gen.random_grammar(rng, names=names, payload="usize" if usize else "mixed", derive=(rng.random() < 0.5) if derive is None else derive, max_nt=4, max_t=4, maxlen=3, self_types=self_types)
         if attrs:
+            prev = []
             for it in items:
                 if it["kind"] != "start":
                     k = rng.choice([0, 0, 1, 2, 3])
                     it["attrs"] = ["#[" + rng.choice(ATTRS_BALANCED) + "]" for _ in range(k)]
+                    if prev and rng.random() < 0.35:
+                        # attribute *families*: the list of the previous declaration with an attribute appended, dropped,
+                        # the order reversed, or one attribute changed — lists that are prefixes of one another
+                        fam = list(prev)
+                        r = rng.random()
+                        if r < 0.35:
+                            fam.append("#[" + rng.choice(ATTRS_BALANCED) + "]")
+                        elif r < 0.55 and len(fam) > 1:
+                            fam.pop()
+                        elif r < 0.7 and len(fam) > 1:
+                            fam.reverse()
+                        elif r < 0.85:
+                            fam[rng.randrange(len(fam))] = "#[" + rng.choice(ATTRS_BALANCED) + "]"
+                        it["attrs"] = fam
+                    prev = it["attrs"]
                     if rng.random() < 0.08:
                         # bracket nesting around the limits of small counters; identical attributes twice
                         it["attrs"].append(gen.deep_attr(rng.choice([127, 128, 254, 255, 256, 257, 300]), rng.choice(["(", "([{"])))
